@@ -209,7 +209,15 @@ func newStreamCodec(rwc io.ReadWriteCloser, f streamEncoding) *streamCodec {
 
 func (c *streamCodec) Encode(ctx context.Context, m *capnp.Message) error {
 	c.wc.setWriteContext(ctx)
-	return c.enc.Encode(m)
+	err := c.enc.Encode(m)
+	if err != nil && c.wc.written {
+		// Part of the frame is on the wire (possibly a whole buffer of a
+		// multi-buffer write) and the rest is not: the stream is torn.
+		// The encoder re-wraps write errors, so the type must be restored
+		// here for the transport to see it.
+		return partialWriteError{err}
+	}
+	return err
 }
 
 func (c *streamCodec) Decode(ctx context.Context) (*capnp.Message, error) {
@@ -367,6 +375,7 @@ type ctxWriteCloser struct {
 	io.WriteCloser
 	ctx                 context.Context
 	partialWriteTimeout time.Duration
+	written             bool // any bytes written since setWriteContext
 }
 
 // Write bytes to a writer while making a best effort to
@@ -375,6 +384,9 @@ type ctxWriteCloser struct {
 // ignore the Done signal to avoid partial writes.
 func (wc *ctxWriteCloser) Write(b []byte) (int, error) {
 	n, err := wc.write(b)
+	if n > 0 {
+		wc.written = true
+	}
 	if n > 0 && n < len(b) {
 		err = partialWriteError{err}
 	}
@@ -382,7 +394,7 @@ func (wc *ctxWriteCloser) Write(b []byte) (int, error) {
 	return n, err
 }
 
-func (wc *ctxWriteCloser) setWriteContext(ctx context.Context) { wc.ctx = ctx }
+func (wc *ctxWriteCloser) setWriteContext(ctx context.Context) { wc.ctx, wc.written = ctx, false }
 
 func (wc *ctxWriteCloser) write(b []byte) (int, error) {
 	select {
